@@ -1,6 +1,8 @@
 package pure
 
 import (
+	"encoding/json"
+	"os"
 	"testing"
 
 	"pgregory.net/rapid"
@@ -32,8 +34,35 @@ func FuzzC11(f *testing.F) {
 	}))
 }
 
+// knownSignature reports whether sig is listed under "findings" in the committed known-findings
+// file (the fuzz targets run without the bookkeeping of vkit.Run).
+func knownSignature(sig string) bool {
+	raw, err := os.ReadFile(os.Getenv("VERIF_KNOWN"))
+	if err != nil {
+		return false
+	}
+	var kf struct {
+		Findings []struct {
+			Signature string `json:"signature"`
+		} `json:"findings"`
+	}
+	if json.Unmarshal(raw, &kf) != nil {
+		return false
+	}
+	for _, f := range kf.Findings {
+		if f.Signature == sig {
+			return true
+		}
+	}
+
+	return false
+}
+
 func FuzzC20(f *testing.F) {
 	f.Add([]byte{0, 1, 2, 3})
+	if c20Known == nil {
+		c20Known = knownSignature // the recorded finding (shared TCP relay port) is excluded so that the search goes on
+	}
 	f.Fuzz(rapid.MakeFuzz(func(rt *rapid.T) {
 		c := genC20(rt)
 		if kind, msg := runC20(c); kind != "" {
